@@ -999,9 +999,30 @@ func fieldLoad(v ssa.Value) (*types.Var, ssa.Value, bool) {
 		return fieldLoad(x.X)
 	case *ssa.UnOp:
 		if x.Op == token.MUL {
+			// a field of a local struct that holds the snapshot a struct-returning accessor made (`cur := s.slots(); cur.active`)
+			if fa, ok := x.X.(*ssa.FieldAddr); ok {
+				_, isAlloc := fa.X.(*ssa.Alloc)
+				_, isFree := fa.X.(*ssa.FreeVar)
+				if isAlloc || isFree {
+					if r := localStructField(fa, 0); r != nil {
+						if fld, isField := r.(*ssa.Field); isField {
+							if call, isCall := fld.X.(*ssa.Call); isCall {
+								if f, ok := accessorStructField(call, fld.Field); ok {
+									return f, call.Call.Args[0], true
+								}
+							}
+						}
+					}
+				}
+			}
 			return fieldOfAddr(x.X)
 		}
 	case *ssa.Field:
+		if call, isCall := x.X.(*ssa.Call); isCall {
+			if f, ok := accessorStructField(call, x.Field); ok {
+				return f, call.Call.Args[0], true
+			}
+		}
 		st, _ := x.X.Type().Underlying().(*types.Struct)
 		if st != nil {
 			return st.Field(x.Field), x.X, true
@@ -1053,6 +1074,58 @@ func accessorField(call *ssa.Call, idx int) (*types.Var, bool) {
 			return nil, false
 		}
 		fv, base, ok := fieldOfAddr(u.X)
+		if !ok || base != ssa.Value(f.Params[0]) {
+			return nil, false
+		}
+		if field != nil && field != fv {
+			return nil, false
+		}
+		field = fv
+	}
+	return field, field != nil
+}
+
+// accessorStructField: call is a static call of a small module method returning one struct value whose idx-th field is,
+// on every return, a load of one field of the receiver (`func (s *Service) slots() serviceSlots { ...; return
+// serviceSlots{active: s.active, ...} }`).
+func accessorStructField(call *ssa.Call, idx int) (*types.Var, bool) {
+	f := call.Call.StaticCallee()
+	if f == nil || f.Blocks == nil || f.Signature.Recv() == nil || f.Pkg == nil || !strings.HasPrefix(f.Pkg.Pkg.Path(), modulePath) || len(call.Call.Args) == 0 {
+		return nil, false
+	}
+	if f.Signature.Results().Len() != 1 {
+		return nil, false
+	}
+	st, ok := f.Signature.Results().At(0).Type().Underlying().(*types.Struct)
+	if !ok || idx >= st.NumFields() {
+		return nil, false
+	}
+	n := 0
+	for _, b := range f.Blocks {
+		n += len(b.Instrs)
+	}
+	if n > 80 {
+		return nil, false
+	}
+	var field *types.Var
+	for _, ret := range returnsOf(f) {
+		if f.Recover != nil && ret.Block() == f.Recover {
+			continue
+		}
+		u, ok := retVal(ret, 0).(*ssa.UnOp)
+		if !ok || u.Op != token.MUL {
+			return nil, false
+		}
+		a, ok := u.X.(*ssa.Alloc)
+		if !ok {
+			return nil, false
+		}
+		v := localStructField(&ssa.FieldAddr{X: a, Field: idx}, 0)
+		lu, ok := v.(*ssa.UnOp)
+		if !ok || lu.Op != token.MUL {
+			return nil, false
+		}
+		fv, base, ok := fieldOfAddr(lu.X)
 		if !ok || base != ssa.Value(f.Params[0]) {
 			return nil, false
 		}
@@ -2523,7 +2596,7 @@ func (c *Ctx) newStateRule(rule string) {
 
 // transientNewStruct: the struct type tn has no field in the reference tree (the type is new) and nothing that outlives a
 // call can hold one of its values: no struct field or package-level variable has a type containing it, and no value of it
-// (or pointer to it) is converted to an interface, sent on a channel or captured by a closure.
+// (or pointer to it) is converted to an interface or sent on a channel.
 func (c *Ctx) transientNewStruct(pkg *ssa.Package, tn string, t types.Type) bool {
 	pre := pkg.Pkg.Path() + "." + tn + "."
 	for k := range baselineFields {
@@ -2603,19 +2676,8 @@ func (c *Ctx) transientNewStruct(pkg *ssa.Package, tn string, t types.Type) bool
 					if contains(x.X.Type(), map[types.Type]bool{}) {
 						return false
 					}
-				case *ssa.MakeClosure:
-					for _, b := range x.Bindings {
-						if contains(b.Type(), map[types.Type]bool{}) {
-							return false
-						}
-					}
-				case *ssa.Go:
-					for _, a := range x.Call.Args {
-						if contains(a.Type(), map[types.Type]bool{}) {
-							return false
-						}
-					}
 				}
+				// (a closure capturing one still holds a per-call value)
 			}
 		}
 	}
@@ -2770,6 +2832,13 @@ func localStructField(fa *ssa.FieldAddr, depth int) ssa.Value {
 	if depth > 4 {
 		return nil
 	}
+	if fv, isFree := fa.X.(*ssa.FreeVar); isFree {
+		// the captured variable itself, seen from inside the closure
+		if b := freeVarBinding(fv); b != nil {
+			return localStructField(&ssa.FieldAddr{X: b, Field: fa.Field}, depth+1)
+		}
+		return nil
+	}
 	a, ok := fa.X.(*ssa.Alloc)
 	if !ok || a.Referrers() == nil {
 		return nil
@@ -2802,8 +2871,35 @@ func localStructField(fa *ssa.FieldAddr, depth int) ssa.Value {
 				return nil
 			}
 		case *ssa.UnOp, *ssa.DebugRef:
+		case *ssa.MakeClosure:
+			// captured by a function literal that only reads its fields
+			for i, b := range x.Bindings {
+				if b != ssa.Value(a) {
+					continue
+				}
+				cl, _ := x.Fn.(*ssa.Function)
+				if cl == nil || i >= len(cl.FreeVars) || cl.FreeVars[i].Referrers() == nil {
+					return nil
+				}
+				for _, fr := range *cl.FreeVars[i].Referrers() {
+					switch y := fr.(type) {
+					case *ssa.DebugRef:
+					case *ssa.FieldAddr:
+						for _, rr := range *y.Referrers() {
+							switch rr.(type) {
+							case *ssa.UnOp, *ssa.DebugRef:
+							default:
+								return nil
+							}
+						}
+					case *ssa.UnOp:
+					default:
+						return nil
+					}
+				}
+			}
 		default:
-			return nil // escapes (call argument, closure capture, interface ...)
+			return nil // escapes (call argument, interface ...)
 		}
 	}
 	switch {
